@@ -9,7 +9,7 @@ runw=$(head -12 $m/demo.rs | grep -m1 -oE "cargo test -p [a-z-]+ --test [a-z0-9_
 [ -z "$place" ] && { echo "$id NO-PLACE"; exit 2; }
 git apply $m/patch.diff || { echo "$id PATCH-DOES-NOT-APPLY"; exit 2; }
 suite=$(cargo test --workspace --no-fail-fast --offline 2>&1 | grep -E "test result" | awk '{p+=$4; f+=$6} END {print p"/"f}')
-cp $m/demo.rs $place
+mkdir -p $(dirname $place); cp $m/demo.rs $place
 with=$($runw 2>&1 | grep -E "test result" | tail -1)
 git apply -R $m/patch.diff
 without=$($runw 2>&1 | grep -E "test result" | tail -1)
